@@ -15,6 +15,12 @@ P = {
  "C01": dict(tie="translators (route table, Smithy operations, call bodies) + white-box and end-to-end correspondence",
    text="The route table is re-translated from resolve_route and the operation specifications from data/s3.json on every run. Generic theorems (first-match interpreter): if the table passes the decidable criterion routed_first for an operation then EVERY request view that denotes the operation (any optional members, any non-routing keys/headers) resolves to it; whatever the router answers matches the operation's method/kind/literal keys; requests matching no operation are refused. Per-run obligations (vm_compute on today's tables): the criterion holds for all 96 operations but the known finding, soundness of all 102 rules, and every generated Operation::call body has the shape deserialize; typed hook of the operation; backend method of the operation; serialize.",
    note="Trusted: Coq kernel; the Python translators (fail closed on unrecognised text; validated by the white-box correspondence against the real resolve_route on every view and by end-to-end requests observed at a recording backend); harness. 15 operations with required XML payload members are observed only up to the deserializer in the end-to-end run. No axioms."),
+ "C05": dict(tie="hand model + white-box and end-to-end correspondence",
+   text="Model of the SigV4 header check (Authorization grammar, canonical request with comma-folded repeated headers and collapsed spaces, string to sign, signing-key chain, payload-mode dispatch). Theorems for every hash and provider: an acceptance implies the header parses, names AWS4-HMAC-SHA256, the credential date is the request date, the provider knows the key and the presented signature is the one computed over the canonical request under that secret and scope; no provider => no acceptance; equal signatures mean equal canonical requests or a collision of the signing function; the AWS documentation example evaluates to Accept with the Gallina SHA-256/HMAC. Tied to the code by comparing canonical request texts (hook) and end-to-end verdicts for reference-signed requests, canonical-equivalent rewrites and every single-component mutation.",
+   note="Trusted: Coq kernel; hand model of sig_v4/*.rs and ops/signature.rs; Gallina SHA-256/HMAC; the Python reference signer (asserted against the AWS example each run); harness. Partial: equivalence of the code's canonical request with the AWS text and its injectivity are checked by correspondence (three-way: code, model, reference signer), not yet proved; collision resistance is a named hypothesis only. Known finding: wire order of repeated query names. No axioms."),
+ "C06": dict(tie="hand model + end-to-end correspondence against the real clock",
+   text="Model of v4_check_presigned_url. Theorems for every hash/provider/calendar: an accepted URL has each of the six X-Amz-* parameters exactly once, the current time inside [signing time - 900 s, signing time + X-Amz-Expires] (nanosecond arithmetic over Z), credential date = X-Amz-Date, and X-Amz-Signature equal to the signature over method, path, all other query parameters and the listed signed headers; calendar bijection for all years (era-exhaustive vm_compute lifted by periodicity). Tied to the code by reference-presigned URLs placed before/inside/after the window with >= 30 s margins and every parameter mutation/duplication/removal, each compared with the model evaluated at the send time.",
+   note="Trusted: Coq kernel; hand model; the time crate's calendar (modelled by Calendar.v, compared on every request); the wall clock with margins (the boundary second itself is decided by the theorem, not observed); harness. No axioms."),
  "C08": dict(tie="hand model + correspondence check",
    text="AwsChunkedStream rendered as a frame-driven state machine (phases = await points); theorem for every signing function, input and framing: delivered bytes are the data of a chain of chunks each verified against the previous signature from the seed, and a successful end implies a verified zero-length last chunk and the declared total; tampering reduced to a collision of the signing function; framing independence. Tied to the code by running the real stream (hook) and the model (Gallina HMAC-SHA256) on reference-encoded bodies with single faults under many framings.",
    note="Trusted: Coq kernel; hand model of aws_chunked_stream.rs incl. nom's hex_u32/take semantics; Gallina SHA-256/HMAC (validated by the AWS example on every run); harness. Collision resistance of HMAC-SHA256 is a named hypothesis, not assumed in any theorem. The converse (every complete upload is accepted) is checked by correspondence only. No axioms."),
